@@ -484,6 +484,10 @@ func main() {
 	}
 	for i := 0; i < c.N; i++ {
 		wseed := c.Rng.U64() % 1000000
+		// alternate the two workload modes (even: out-of-order appends, odd: deletions)
+		if wseed%2 != uint64(i%2) {
+			wseed++
+		}
 		c.Case(fmt.Sprintf("w%d", wseed))
 		// 1. untampered traced run
 		base := h.TempDir("vcrash")
